@@ -3,8 +3,8 @@
 (* entropy source: the "generate with automatic reseed" envelope of SP 800-90A *)
 (* 9.3 with Get_entropy_input bound to one read of the source.                *)
 (*                                                                            *)
-(* New(mech, gm, requested strength, personalisation): security_strength is   *)
-(*   the lowest of {112,128,192,256} bits (14,16,24,32 bytes) >= requested     *)
+(* New(mech, gm, alg, requested strength, personalisation): security_strength   *)
+(*   is the lowest of {112,128,192,256} bits (14,16,24,32 bytes) >= requested     *)
 (*   (SP 800-90A 9.1 step 3 - larger requests are not explored); entropy_input *)
 (*   = one read of security_strength bytes, nonce = one read of half as many   *)
 (*   (8.6.7); GM/T 0105 mode needs 256 bits (requested < 32 is an error, before *)
@@ -29,7 +29,7 @@ VARIABLES wrap,      \* BOOLEAN: the wrapper exists
           strength,  \* security_strength in bytes
           srck,      \* number of source reads made so far
           srclog
-pvars == <<inst, mech, gm, st, lastReseed, now, reply, wrap, strength, srck, srclog>>
+pvars == <<inst, mech, gm, alg, st, lastReseed, now, reply, wrap, strength, srck, srclog>>
 
 SelectStrength(r) == IF r <= 14 THEN 14 ELSE IF r <= 16 THEN 16 ELSE IF r <= 24 THEN 24 ELSE IF r <= 32 THEN 32 ELSE r
 SrcKind(fault, j) == IF fault = 0 \/ (fault \div 10) - 1 # j THEN "ok"
@@ -44,17 +44,17 @@ Faulty(log) == \E i \in 1..Len(log) : log[i].kind # "ok"
 
 PInit == DInit /\ wrap = FALSE /\ strength = 0 /\ srck = 0 /\ srclog = <<>>
 
-New(m, g, req, p, f) ==
+New(m, g, al, req, p, f) ==
   /\ ~wrap
   /\ LET s == SelectStrength(req)
          c1 == SrcCall(f, srck, s)
          c2 == SrcCall(f, srck + 1, s \div 2)
          failed(log) == /\ reply' = Fail("err") /\ srclog' = log /\ srck' = srck + Len(log)
-                        /\ UNCHANGED <<inst, mech, gm, st, lastReseed, now, wrap, strength>>
+                        /\ UNCHANGED <<inst, mech, gm, alg, st, lastReseed, now, wrap, strength>>
      IN IF g /\ m # "hmac" /\ req < 32 THEN failed(<<>>)
         ELSE IF c1.kind # "ok" THEN failed(<<c1>>)
         ELSE IF c2.kind # "ok" THEN failed(<<c1, c2>>)
-        ELSE /\ Instantiate(m, g, c1.data, c2.data, p)
+        ELSE /\ Instantiate(m, g, al, c1.data, c2.data, p)
              /\ wrap' = inst' /\ strength' = s
              /\ srclog' = <<c1, c2>> /\ srck' = srck + 2
 
@@ -67,10 +67,10 @@ ReadLoop(f, s, lr, k, rem, acc) ==
   THEN LET c == SrcCall(f, k, strength)
        IN IF c.kind # "ok" \/ Len(c.data) < MinEntropy(mech, gm)
           THEN [st |-> s, lr |-> lr, k |-> k + 1, out |-> acc, ok |-> FALSE, log |-> <<c>>]
-          ELSE LET r == ReadLoop(f, DoReseed(mech, gm, s, c.data, <<>>), now, k + 1, rem, acc)
+          ELSE LET r == ReadLoop(f, DoReseed(alg, mech, gm, s, c.data, <<>>), now, k + 1, rem, acc)
                IN [r EXCEPT !.log = <<c>> \o @]
   ELSE LET chunk == Min(rem, AdvertisedMax(mech, gm))
-           g == DoGenerate(mech, gm, s, chunk, <<>>)
+           g == DoGenerate(alg, mech, gm, s, chunk, <<>>)
        IN ReadLoop(f, g[2], lr, k, rem - chunk, acc \o g[1])
 
 Read(n, f) ==
@@ -78,7 +78,7 @@ Read(n, f) ==
   /\ \E r \in {ReadLoop(f, st, lastReseed, srck, n, <<>>)} :
        /\ st' = r.st /\ lastReseed' = r.lr /\ srck' = r.k /\ srclog' = r.log
        /\ reply' = IF r.ok THEN Ok(r.out) ELSE Fail("err")
-  /\ UNCHANGED <<inst, mech, gm, now, wrap, strength>>
+  /\ UNCHANGED <<inst, mech, gm, alg, now, wrap, strength>>
 
 (* number of source reads a fault-free Read(n) makes from the current state (time rule aside) *)
 ReadCalls(n) ==
